@@ -100,7 +100,8 @@ API_SURFACE = [
     ('config.allow_x_script_name + X-Script-Name', 'covered by xsn_cfg / xsn (also sent when the option is off)'),
     ('config.app_name_header + client sending that header', 'covered by app_hdr / xapp'),
     ('config.domain_map (PATH_INFO prefix, environ[app_name_header])', "covered by dmap='fixed'/'fromhost' on 404 and crit errhandler"),
-    ('Ombott.wsgi last-resort page, debug off/on', 'covered by crit (five triggers) x debug'),
+    ('Ombott.wsgi last-resort page, debug off/on', 'covered by crit (six triggers, incl. a request path that makes '
+     'request.url raise ValueError inside default_error_handler) x debug'),
     ('Ombott.wsgi HEAD / no-body statuses', "covered by method='HEAD' (page, crit, seq); 1xx/204/304 are not error pages"),
     ('Ombott._handle 400 undecodable path (request re-initialised, F11)', 'covered by 400path, errhandler400, also inside seq'),
     ('Ombott._handle 500', 'covered by crash'), ('Ombott._cast 500 x3', 'covered by unhandled / type / loops'),
@@ -120,7 +121,7 @@ API_SURFACE = [
 ]
 
 KINDS = ['404', '405', '400path', 'map0', 'map1', 'map2', 'crash', 'unhandled', 'type', 'loops']
-CRIT = ['errhandler', 'hdr', 'surrogate', 'nopath', 'errhandler400']
+CRIT = ['errhandler', 'hdr', 'surrogate', 'nopath', 'errhandler400', 'badurl']
 TYPES = ['int', 'float', 'tuple', 'object', 'Weird']
 
 VOCAB = ['<', '>', '&', '"', "'", '{', '}', '{{', '}}', '{0}', '{e.__class__}', '{url}', '{e.body}', '{exception!r}',
@@ -357,7 +358,7 @@ def _make_app(case):
 PREFIX = {'404': '/zz/p', '405': '/w/p', '400path': '/\xff/p', 'map0': '/rq/p', 'map1': '/body/p', 'map2': '/body/p',
           'crash': '/crash/p', 'unhandled': '/unh/p', 'type': '/type/p', 'loops': '/loops/p', 'ok': '/ok/p',
           'sub404': '/sub404/p'}
-CPREFIX = {'errhandler': '/zz/p', 'hdr': '/hdr/p', 'surrogate': '/sur/p', 'nopath': '/', 'errhandler400': '/\xfe/p'}
+CPREFIX = {'badurl': '/x://[g', 'errhandler': '/zz/p', 'hdr': '/hdr/p', 'surrogate': '/sur/p', 'nopath': '/', 'errhandler400': '/\xfe/p'}
 # kinds whose request must match a <x:path> wildcard ('.+' does not match LF: such a path is a 404)
 ROUTED = {'405', 'map0', 'map1', 'map2', 'crash', 'unhandled', 'type', 'loops', 'hdr', 'surrogate', 'ok'}
 NOISE = {'ok', 'sub404'}        # ordinary traffic inside a sequence: sent, not compared
@@ -380,6 +381,8 @@ def _fit(c):
     k = c.get('kind') or c.get('trigger')
     if k in ROUTED and '\n' in c['tail']:
         c['tail'] = c['tail'].replace('\n', '\x0b')
+    if k == 'badurl' and (c.get('accept') or '').startswith('application/json'):
+        c['accept'] = 'text/html'
     if k not in UNDECODABLE and not _decodable(c['tail']):
         c['tail'] = c['tail'].encode('utf8').decode('latin1')      # send the same characters as UTF-8
     return c
@@ -393,6 +396,10 @@ def _environ(case):
         method = 'POST' if kind in ('405', 'map1', 'map2') else case.get('method', 'GET')
     else:
         path = CPREFIX[case['trigger']] + case['tail']
+        if case['trigger'] == 'badurl':
+            # '/<scheme>://[<text>]': urljoin/urlsplit refuse the bracketed host while request.url is computed for the
+            # 404 page (ValueError quoting the text) -> last-resort page (seeded change C20-19 turned it into a 400 page)
+            path += ']'
         method = case.get('method', 'GET')
     env = {
         'REQUEST_METHOD': method, 'PATH_INFO': path, 'QUERY_STRING': case.get('qs', ''),
@@ -1105,6 +1112,11 @@ def corpus():
     out += [page('crash', tail='u', msg=CW), page('crash', tail='u', msg=CW, debug=True), page('crash', tail='u', msg=CW, accept=J),
             page('404', tail='u', qs='%EF%BC%9Cb%EF%BC%9E'), page('404', tail=_wire(CW), accept=J),
             prim('escape', CW), prim('html_escape', CW), prim('repr', CW), prim('dumps', CW)]
+    # request paths that urljoin/urlsplit refuse while the error page computes request.url (seeded change C20-19)
+    out += [crit('badurl', tail=_wire('<img src=a onerror=alert(1)>')), crit('badurl', tail='<b>', debug=True),
+            crit('badurl', tail='<b>"\'&{0}', qs='<q>', host='h<i>'), crit('badurl', tail='::1<b>/x?y#z'),
+            crit('badurl', tail='a]b<b>]c'), crit('badurl', tail='<b>', prime=True), crit('badurl', tail='<b>', via='custom'),
+            crit('badurl', tail='<b>', method='HEAD')]
     # long requests (seeded change C20-8: a length guard that echoed the raw url once the escaped url passed 1024
     # characters).  Escaping must hold for every length: markup inside 1-5 kB of padding, in each request part.
     for k in KINDS:
